@@ -28,8 +28,6 @@ import (
 	gethtypes "github.com/ethereum/go-ethereum/core/types"
 	"github.com/gogo/protobuf/proto"
 
-	"github.com/kardiachain/go-kardia/kai/kaidb/memorydb"
-	"github.com/kardiachain/go-kardia/kai/rawdb"
 	"github.com/kardiachain/go-kardia/kai/state/cstate"
 	"github.com/kardiachain/go-kardia/lib/common"
 	"github.com/kardiachain/go-kardia/lib/crypto"
@@ -518,6 +516,9 @@ func runSchedule(o *out.Out, r *gen.Rand, data []byte, partSize uint32, full *ty
 		offer(p, "b:into-empty")
 	}
 	step++
+	if genuineHdr {
+		partSetExtras(o, r, ps, hdr, data, partSize)
+	}
 	if ps.IsComplete() {
 		got, ok := opRead(o, ps)
 		if genuineHdr && total > 0 {
@@ -540,9 +541,16 @@ func runSchedule(o *out.Out, r *gen.Rand, data []byte, partSize uint32, full *ty
 func genData(r *gen.Rand, ps uint32) ([]byte, string) {
 	p := int(ps)
 	kind := r.Pick(4, 4, 2, 1, 1, 1, 1)
+	if p <= 32 && r.Chance(1, 40) {
+		kind = 7
+	}
 	var n int
 	var name string
 	switch kind {
+	case 7: // part counts around 128 / 256 (bit array words, one-byte index boundaries)
+		k := []int{127, 128, 129, 255, 256, 257}[r.Intn(6)]
+		n = p*(k-1) + 1 + r.Intn(p)
+		name = "verymany"
 	case 0: // exact multiple
 		n = p * (1 + r.Intn(6))
 		name = "exact"
@@ -714,6 +722,9 @@ func runMerkleCase(o *out.Out, r *gen.Rand, c int) {
 	n := r.Pick(1, 3, 3, 3, 3, 3, 2, 2, 2, 2, 1, 1, 1, 1, 1, 1, 1, 1)
 	if r.Chance(1, 10) {
 		n = 17 + r.Intn(30)
+	}
+	if r.Chance(1, 25) {
+		n = []int{31, 32, 33, 63, 64, 65, 127, 128, 129}[r.Intn(9)]
 	}
 	items := make([][]byte, n)
 	for i := range items {
@@ -1288,7 +1299,9 @@ func runBlockCase(o *out.Out, r *gen.Rand, c int) {
 	// last commit
 	var lastCommit *types.Commit
 	commitKind := "none"
-	if height > 1 {
+	// a chain whose initial height is this very height (> 1): the block carries the empty commit
+	initialAt := height > 1 && r.Chance(1, 8)
+	if height > 1 && !initialAt {
 		round := uint32(r.Intn(3))
 		sigs := make([]types.CommitSig, nv)
 		kinds := make([]int, nv)
@@ -1322,7 +1335,11 @@ func runBlockCase(o *out.Out, r *gen.Rand, c int) {
 		lastCommit = types.NewCommit(height-1, round, lastBID, sigs)
 		commitKind = "signed"
 	} else {
-		switch r.Intn(3) {
+		k := r.Intn(3)
+		if initialAt {
+			k = 1 + r.Intn(2) // (a nil LastCommit above height 1 fails Block.ValidateBasic)
+		}
+		switch k {
 		case 0:
 			lastCommit = nil
 		case 1:
@@ -1332,7 +1349,11 @@ func runBlockCase(o *out.Out, r *gen.Rand, c int) {
 			lastCommit = types.NewCommit(0, 0, types.BlockID{}, nil)
 			commitKind = "empty"
 		}
-		lastBID = types.BlockID{}
+		if !initialAt {
+			lastBID = types.BlockID{}
+		} else {
+			commitKind = "empty-initial>1"
+		}
 	}
 	o.Count("block.commit." + commitKind)
 	// transactions
@@ -1383,15 +1404,16 @@ func runBlockCase(o *out.Out, r *gen.Rand, c int) {
 	if r.Chance(1, 6) {
 		hdr.AppHash = common.Hash{}
 	}
-	if height > 1 {
+	if height > 1 && !initialAt {
 		hdr.Time = cstate.MedianTime(lastCommit, vset) // what validateBlock demands
 	}
 	// the chain state this block is to be validated against (kai/state/cstate validateBlock)
 	state := cstate.LatestBlockState{ChainID: chainID, InitialHeight: 1, LastBlockHeight: height - 1, LastBlockID: lastBID,
 		LastBlockTime: hdr.Time.Add(-time.Hour), NextValidators: vset, Validators: vset, LastValidators: vset, AppHash: hdr.AppHash,
 		ConsensusParams: *types.DefaultConsensusParams()}
-	if height == 1 {
+	if height == 1 || initialAt {
 		state.LastBlockTime = hdr.Time // genesis time
+		state.InitialHeight = height
 	}
 	if r.Chance(1, 10) { // not a block of this chain state: exercises hashing of unusual values only
 		hdr.ValidatorsHash = rndHash(r)
@@ -1499,6 +1521,27 @@ func runBlockCase(o *out.Out, r *gen.Rand, c int) {
 			es = es[:28]
 		}
 		o.Count("block.base.state-invalid." + strings.ReplaceAll(es, " ", "_"))
+	}
+	// the same question as an observable of the model (fresh executor), then against perturbed states
+	opValidate(o, state, blk)
+	{
+		perts := perturbStates(r, state, blk, vset)
+		np := 3
+		if *out.Tier == "thorough" {
+			np = len(perts)
+		}
+		for _, pi := range r.Perm(len(perts)) {
+			if np == 0 {
+				break
+			}
+			np--
+			pt := perts[pi]
+			perr := opValidate(o, pt.st, blk)
+			o.Count("state-perturbation." + pt.name + "." + vsClass(perr))
+			if perr == nil && pt.mustFail && baseVB == nil && baseState == nil {
+				o.Fail(1, "block-valid-for-another-chain-state:"+pt.name, fmt.Sprintf("a block (height %d, %s last commit) that is valid for its chain state is also accepted by validateBlock for a state that differs in %s", height, commitKind, pt.name))
+			}
+		}
 	}
 	baseCanon := canon(blk)
 	baseValid := baseVB == nil
@@ -1648,25 +1691,11 @@ func runBlockCase(o *out.Out, r *gen.Rand, c int) {
 		o.Count("roundtrip.part")
 	}
 	// database read-back
-	if baseValid {
-		db := memorydb.New()
-		seen := lastCommit
-		if seen == nil {
-			seen = &types.Commit{}
-		}
-		var rb *types.Block
-		if blk.LastCommit() != nil {
-			if catch(func() {
-				rawdb.WriteBlock(db, blk, full, seen)
-				rb = rawdb.ReadBlock(db, blk.Height())
-			}) {
-				o.Fail(step, "rawdb-panic", "")
-			} else if rb == nil || rb.Hash() != baseHash || !bytes.Equal(canon(rb), baseCanon) || !sameBlock(rb, blk) {
-				o.Fail(step, "rawdb-readback-changed", "ReadBlock(WriteBlock(b)) differs from b")
-			}
-			o.Count("roundtrip.rawdb")
-		}
+	if baseValid && blk.LastCommit() != nil {
+		runStore(o, r, blk, full, vset, base)
 	}
+	// codec boundary values
+	runCodec(o, r, base, vset)
 
 	// ---- single-field mutations of the wire form
 	pb0, _ := blk.ToProto()
@@ -1697,8 +1726,8 @@ func runBlockCase(o *out.Out, r *gen.Rand, c int) {
 			o.Fail(step, "mutated-block-panic", name)
 			return
 		}
+		mfresh := opValidate(o, state, mb) // (directly after the BLK op of mb)
 		mstate := stateOK(mb)
-		mfresh := validate(cstate.NewBlockExecutor(nil, log.New(), okEvidencePool{}, nil), mb)
 		if (mstate != nil && strings.HasPrefix(mstate.Error(), "PANIC")) || (mfresh != nil && strings.HasPrefix(mfresh.Error(), "PANIC")) {
 			o.Fail(step, "validateblock-panic:"+name, fmt.Sprintf("BlockExecutor.ValidateBlock panicked on the block mutated by %s", name))
 		}
@@ -1727,7 +1756,7 @@ func runBlockCase(o *out.Out, r *gen.Rand, c int) {
 		o.Mark("mut:" + name + ":" + outcome + ":" + commitKind)
 		if outcome == "UNDETECTED" && baseValid && baseState == nil {
 			class := "tamper-undetected:" + name
-			if height == 1 && strings.HasPrefix(name, "commit.") {
+			if height == state.InitialHeight && strings.HasPrefix(name, "commit.") {
 				// the (signature-less) last commit of the initial block
 				class = "genesis-commit-malleable"
 			}
